@@ -242,4 +242,5 @@ func checkC05(w *World, r *Report) {
 	checkCapMin(w, r, tm, tree)
 	checkSupplyGuard(w, r, tm, tree)
 	fixedPriceGuards(w, r, tm)
+	checkAddrCanon(w, r, tm)
 }
